@@ -4,7 +4,8 @@
     [wm_safe]: within an iteration, after Watermark(t) no element with timestamp <= t and no
     watermark <= t — whenever the component's inputs respect the same contract. *)
 From Noir Require Import Base.Elem Model.Start Proofs.StartSpec Corr.Canon.
-From Noir Require Corr.C17 Corr.C07 Corr.C12 Corr.C13 Corr.C16.
+From Noir Require Corr.C17 Corr.C07 Corr.C12 Corr.C13 Corr.C16 Corr.C09.
+From Noir Require Import Model.BinaryStart Corr.BinCorr.
 From Coq Require Import NArith.
 Open Scope Z_scope.
 
@@ -13,12 +14,14 @@ Inductive case :=
 | KAgg (c : C07.case)
 | KCount (c : C12.case)
 | KEvent (c : C13.case)
-| KReorder (c : C16.case).
+| KReorder (c : C16.case)
+| KFan (c : C09.case).    (* zip / merge behind the two-input Start: the input of the operator is the model's Start output *)
 
 Definition corr_ok (c : case) : bool :=
   match c with
   | KStart x => C17.corr_ok x | KAgg x => C07.corr_ok x | KCount x => C12.corr_ok x
   | KEvent x => C13.corr_ok x | KReorder x => C16.corr_ok x
+  | KFan x => C09.corr_ok x
   end.
 
 Definition senders_safe {A} (n : nat) (bs : list (nat * list (elem A))) : bool :=
@@ -47,6 +50,12 @@ Definition prop_ok (c : case) : bool :=
       | C16.CReorder input out => if wm_safe (strip_fb input) then wm_safe (strip_fb out) else true
       | C16.CSeq _ _ _ bs out => if senders_safe 1 bs then wm_safe (strip_fb out) else true
       | C16.CJob _ _ _ _ _ => true
+      end
+  | KFan x =>
+      match x with
+      | C09.CZip nl nr dels out => if wm_safe (brun nl nr false false dels) then wm_safe (strip_fb out) else true
+      | C09.CMerge nl nr dels out => if wm_safe (brun nl nr false false dels) then wm_safe (strip_fb out) else true
+      | _ => true
       end
   end.
 
